@@ -36,6 +36,16 @@ CHECKS = {
          "Every intermediate allocator state of generated histories is checked for overlap/misalignment/out-of-page, every payload for exactly-once drop; bounded search.",
          "Trusts the read-only hook snapshot (bounded walks); intra-page overlap is only visible through it.",
          "DESIGN.md section 5, C15"),
+ "C16": ("exploration",
+         "property-based testing: stateful op sequences over message slots and 36 body types against a (type tag, value) model with instance-tracked drops and an independent length function",
+         "Generated set/clone/try_clone/try_cast/try_content/can_cast/drop sequences with matching, non-matching and layout-compatible types; bounded search.",
+         "Values compared through Debug renderings; body types are the 36 listed in the harness (c16.rs).",
+         "DESIGN.md section 5, C16"),
+ "C17": ("exploration",
+         "property-based testing: generated module trees + flat dotted-key YAML (wildcards, colliding names, non-ASCII) against an independent component matcher, three capture routes compared; typed read/write sequences against a sticky-type model",
+         "Exact (iff) key-set comparison per module for generated configurations aimed at the generated module paths; bounded search.",
+         "Flat dotted keys with scalar values only (the property's quantifier); one known finding excluded by construction (see known_findings.json).",
+         "DESIGN.md section 5, C17"),
 }
 REASON_TODO = "check not built yet in this revision (planned, see DESIGN.md section 5)"
 
